@@ -27,7 +27,96 @@ const (
 	fAbsentOff   = "C18-absent-over-time-offset-range-query"
 	fAbsentNeg   = "C18-absent-negative-matcher-on-absent-label"
 	fBinopNext   = "C18-range-binop-pairs-next-series-after-end"
+	fStaleEnd    = "C18-instant-range-function-drops-series-ending-stale"
 )
+
+// staleCandidates returns the indices of the series that have a staleness marker inside the window of some
+// range-vector selector of the expression evaluated at t.
+func staleCandidates(ds *dataset, expr string, t int64) []int {
+	e, err := parser.ParseExpr(expr)
+	if err != nil {
+		return nil
+	}
+	type win struct{ rg, off int64 }
+	var wins []win
+	parser.Inspect(e, func(n parser.Node, _ []parser.Node) error {
+		if ms, ok := n.(*parser.MatrixSelector); ok {
+			if vs, ok := ms.VectorSelector.(*parser.VectorSelector); ok {
+				wins = append(wins, win{ms.Range.Milliseconds(), vs.OriginalOffset.Milliseconds()})
+			}
+		}
+		return nil
+	})
+	var out []int
+	for i, s := range ds.Series {
+		hit := false
+		for _, w := range wins {
+			hi := t - w.off
+			lo := hi - w.rg
+			for _, p := range s.Samples {
+				if p.T >= lo && p.T <= hi && isStale(p.V) {
+					hit = true
+				}
+			}
+		}
+		if hit {
+			out = append(out, i)
+		}
+	}
+	return out
+}
+
+// dropStaleEnded returns the number of candidate series (see staleCandidates); kept for the step-wise explanation.
+func dropStaleEnded(ds *dataset, expr string, t int64) (dataset, int) {
+	return *ds, len(staleCandidates(ds, expr, t))
+}
+
+// staleExplainsInstant: the server's instant answer at t equals the upstream answer over the data set WITHOUT the
+// series whose window ends in a staleness marker (for one of the candidate readings of the expression).
+func staleExplainsInstant(ds *dataset, cands []string, t int64, svInst result) (bool, string) {
+	if svInst.Err != "" || len(cands) == 0 {
+		return false, ""
+	}
+	idx := staleCandidates(ds, cands[0], t)
+	if len(idx) == 0 || len(idx) > 4 {
+		return false, ""
+	}
+	// which of the candidate series the engine loses depends on the record layout (the piece of the window that comes
+	// from one file / the memtable must hold nothing but markers): try every non-empty subset
+	for mask := 1; mask < 1<<uint(len(idx)); mask++ {
+		drop := map[int]bool{}
+		for k, i := range idx {
+			if mask&(1<<uint(k)) != 0 {
+				drop[i] = true
+			}
+		}
+		d2 := *ds
+		d2.Series = nil
+		for i, s := range ds.Series {
+			if !drop[i] {
+				d2.Series = append(d2.Series, s)
+			}
+		}
+		if len(d2.Series) == 0 {
+			d2.Series = []series{{Labels: map[string]string{"__name__": nosuchMetric}, Samples: []sample{{T: baseMs, V: 0}}}}
+		}
+		u2, err := newUpstream(&d2)
+		if err != nil {
+			return false, ""
+		}
+		for _, x := range cands {
+			if x == "" {
+				continue
+			}
+			if up := u2.instant(x, t); up.Err == "" && cmpResults(up, svInst) == "" {
+				u2.close()
+				return true, x
+			}
+		}
+		u2.close()
+	}
+	return false, ""
+}
 
 // hasVectorVectorBinop: the expression contains an arithmetic / comparison operator between two instant vectors
 func hasVectorVectorBinop(expr string) bool {
